@@ -435,11 +435,12 @@ class PrettyPrinter:
             new_values = []
 
             for v in value:
-                if not isinstance(v, numbers.Number) and attr not in [
-                    "offset",
-                    "polaroffset",
-                ]:
-                    # don't add quotes to list of attributes for offset / polaroffset
+                if (
+                    not isinstance(v, numbers.Number)
+                    and attr not in ["offset", "polaroffset"]
+                    and not self.quoter.in_brackets(v)
+                ):
+                    # don't add quotes to attribute bindings e.g. for offset / polaroffset
                     v = self.quoter.add_quotes(v)
                 new_values.append(v)
 
